@@ -3,11 +3,11 @@
 import json, os, glob
 V = os.path.dirname(os.path.dirname(os.path.abspath(__file__)))
 rows = []
-for d in sorted(glob.glob(os.path.join(V, 'seeded', '*'))):
+for d in sorted(glob.glob(os.path.join(V, 'seeded', '*', ''))):
     m = json.load(open(os.path.join(d, 'meta.json')))
     diff = open(os.path.join(d, 'patch.diff')).read()
     files = sorted({l[6:] for l in diff.split('\n') if l.startswith('+++ b/')})
-    rows.append('| `%s` | %s | %s | %s | %s |' % (os.path.basename(d), m['property'], ', '.join(files),
+    rows.append('| `%s` | %s | %s | %s | %s |' % (os.path.basename(os.path.dirname(d)), m['property'], ', '.join(files),
                 m['needs_to_manifest'].replace('|', '/'), '; '.join(m.get('detected_by', [])).replace('|', '/')))
 table = '\n'.join(['| seeded change (`seeded/<id>/`) | aimed at | touches | needs, to manifest | quick checks that raise VIOLATION |', '|---|---|---|---|---|'] + rows)
 p = os.path.join(V, 'DESIGN.md'); s = open(p).read()
